@@ -23,7 +23,10 @@ Init ==
           in = [kind |-> "stats", obs |-> [i \in 1..4 |-> [f |-> TRUE, v |-> 10]], pred |-> [i \in 1..4 |-> [f |-> TRUE, v |-> 10 - r[i]]],
                 p |-> 1, long |-> FALSE, drift |-> TRUE]
      \/ \E cv \in GateClasses, pn \in GateClasses : in = [kind |-> "gate", cv |-> cv, pn |-> pn]
-     \/ \E f \in {"hourly", "daily", "billing"}, nm \in {"good", "other", "poor", "tgaps"} : in = [kind |-> "stored", fam |-> f, name |-> nm]     \* tgaps: hours whose temperature had to be filled while the usage is real
+     \/ \E f \in {"hourly", "daily", "billing"}, nm \in {"good", "other", "poor", "tgaps"} : in = [kind |-> "stored", fam |-> f, name |-> nm, prior |-> "none"]     \* tgaps: hours whose temperature had to be filled while the usage is real
+     \* the same model OBJECT was fitted on another meter before: the statistics it reports are those of the last fit
+     \/ \E c \in {<<"daily", "poor", "good">>, <<"daily", "good", "poor">>, <<"billing", "poor", "good">>, <<"billing", "good", "other">>, <<"hourly", "poor", "good">>} :
+          in = [kind |-> "stored", fam |-> c[1], name |-> c[2], prior |-> c[3]]
   /\ out = [res |-> "pending"] /\ pc = "call"
 Call == pc = "call" /\ out' = [res |-> "modelled"] /\ pc' = "done" /\ UNCHANGED in
 Next == Call
